@@ -344,6 +344,61 @@ func c07reuse(who string, settleMs int) string {
 	return fmt.Sprintf("a=%d b=%d ordinary=%d panics=%d blocked=%d", a, b, atomic.LoadInt64(&ordinary), panics, blocked)
 }
 
+// c07pendreconnect: a request is pending when the connection is lost and the session resumed (the real
+// Client.connect against a scripted server that confirms the resumption): the response, delivered on the resumed
+// session, still reaches the caller's channel - exactly once, channel closed, nothing to the ordinary routes.
+func c07pendreconnect() string {
+	st := newStub(nil)
+	router := xmpp.NewRouter()
+	var ordinary int64
+	router.NewRoute().HandlerFunc(func(s xmpp.Sender, p stanza.Packet) {
+		if iq, ok := p.(*stanza.IQ); ok && (iq.Type == stanza.IQTypeResult || iq.Type == stanza.IQTypeError) {
+			atomic.AddInt64(&ordinary, 1)
+		}
+	})
+	cfg := &xmpp.Config{Jid: "u@localhost/r", Credential: xmpp.Password("p"), StreamManagementEnable: true}
+	client, err := newStubClient(cfg, router, nil, st)
+	if err != nil {
+		return "newclient-failed"
+	}
+	sess := &xmpp.Session{SMState: xmpp.SMState{Id: "sm1", UnAckQueue: stanza.NewUnAckQueue()}}
+	client.Session = sess
+	ctx, cancel := context.WithCancel(context.Background())
+	defer cancel()
+	iq, _ := stanza.NewIQ(stanza.Attrs{Type: stanza.IQTypeGet, Id: "across", To: "srv"})
+	iq.Payload = &stanza.Version{}
+	ch, err := client.SendIQ(ctx, iq)
+	if err != nil {
+		return "senderr"
+	}
+	res := reconnect(client, cfg, sess, "sm1", false)
+	panics := 0
+	func() {
+		defer func() {
+			if r := recover(); r != nil {
+				panics++
+			}
+		}()
+		xmpp.VerifRoute(router, client, &stanza.IQ{Attrs: stanza.Attrs{Type: "result", Id: "across", From: "srv"}})
+	}()
+	got, closed := 0, false
+	timeout := time.After(300 * time.Millisecond)
+loop:
+	for {
+		select {
+		case _, ok := <-ch:
+			if !ok {
+				closed = true
+				break loop
+			}
+			got++
+		case <-timeout:
+			break loop
+		}
+	}
+	return fmt.Sprintf("resume=%v got=%d closed=%v ordinary=%d panics=%d", res != "none" && res != "hang" && res != "panic", got, closed, atomic.LoadInt64(&ordinary), panics)
+}
+
 func indexOf(s, sub string) int {
 	for i := 0; i+len(sub) <= len(s); i++ {
 		if s[i:i+len(sub)] == sub {
@@ -356,6 +411,10 @@ func indexOf(s, sub string) int {
 func (c07) Exec(c Case) []string {
 	var obs []string
 	for _, op := range c.Ops {
+		if op[0] == "pendreconnect" {
+			obs = append(obs, c07pendreconnect())
+			continue
+		}
 		if op[0] == "reuse" && len(op) == 3 {
 			ms, _ := strconv.Atoi(op[2])
 			obs = append(obs, c07reuse(op[1], ms))
@@ -395,6 +454,9 @@ func (c07) Generate(rng *rand.Rand, tier string, st *Stats) []Case {
 	mk("client", 8, 4, false, 0, 0, false)  // duplicates from several goroutines
 	mk("client", 8, 1, false, 100, 100, false) // cancelled and abandoned: late responses must not block
 	mk("component", 8, 3, false, 50, 50, false)
+	cases = append(cases, Case{ID: fmt.Sprintf("c07-%d", n), Ops: [][]string{{"pendreconnect"}}})
+	n++
+	st.Inc("pending_across_resumption")
 	for _, who := range []string{"client", "component"} {
 		for _, ms := range []int{0, 1, 20} {
 			cases = append(cases, Case{ID: fmt.Sprintf("c07-%d", n), Ops: [][]string{{"reuse", who, strconv.Itoa(ms)}}})
